@@ -40,7 +40,7 @@ def ob_run2d_v(lenN, lenM, lenP, low, fixed=False):
         from pydl.pydlutils.sdss import sdss_specobjid, unwrap_specobjid
         dN, dM, dP = _digits(ctx, 'N', lenN), _digits(ctx, 'M', lenM), _digits(ctx, 'P', lenP)
         if fixed:
-            # quick tier: the digits are concretised on demand (the solver enumerates all 10^k spellings)
+            # the digits are concretised on demand (the solver enumerates all 10^k spellings)
             dN, dM, dP = ([z3.IntVal(ctx.concretize(t)) for t in ds] for ds in (dN, dM, dP))
             dN, dM, dP = ([chr(t.as_long()) for t in ds] for ds in (dN, dM, dP))
         run2d = S('v', dN, '_', dM, '_', dP)
@@ -48,7 +48,7 @@ def ob_run2d_v(lenN, lenM, lenP, low, fixed=False):
         for v, hi in ((plate, 2 ** 14), (fiber, 2 ** 12)):
             ctx.add(z3.And(v.v >= 0, v.v < hi))
         ctx.add(z3.And(mjd.v >= 50000, mjd.v < 50000 + 2 ** 14))
-        if fixed:      # quick tier: concrete plate / fibre / MJD, the run2d digits stay symbolic
+        if fixed == 1:      # quick tier: concrete plate / fibre / MJD as well
             ctx.add(z3.And(plate.v == 4055, fiber.v == 408, mjd.v == 55359))
         d = {'fn': 'run2d_v', 'lenN': lenN, 'lenM': lenM, 'lenP': lenP, 'low': low}
         ctx.detail = d
@@ -139,10 +139,12 @@ def ob_decimal_ids(kind, nd):
 
 def obligations(tier, seed):
     q = tier == 'quick'
-    obs = [ob_run2d_v(1, 1, 1, None, fixed=q), ob_run2d_intstring(3), ob_run2d_intstring(5),
+    obs = [ob_run2d_v(1, 1, 1, None, fixed=(1 if q else 0)), ob_run2d_intstring(3), ob_run2d_intstring(5),
            ob_decimal_ids('spec', 19), ob_decimal_ids('obj', 19)]
     if not q:
-        obs += [ob_run2d_v(1, 2, 1, 'line'), ob_run2d_v(1, 2, 2, 'index'), ob_run2d_v(2, 1, 1, None), ob_run2d_v(1, 1, 2, None), ob_run2d_intstring(1), ob_run2d_intstring(4),
+        # fixed=2: every spelling of the digits is enumerated by the solver, plate / fibre / MJD / line stay symbolic 64-bit values
+        obs += [ob_run2d_v(1, 2, 1, 'line', fixed=2), ob_run2d_v(1, 1, 2, 'index', fixed=2), ob_run2d_v(2, 1, 1, None, fixed=2),
+                ob_run2d_intstring(1), ob_run2d_intstring(4),
                 ob_decimal_ids('spec', 20), ob_decimal_ids('spec', 5), ob_decimal_ids('obj', 10)]
     return obs
 
